@@ -68,6 +68,12 @@ check("C19",
       "TLA+ spec (QStats/QTomo, complete multinomial enumeration) model-checked with TLC; replay of TLC-emitted exact moments into the implementation",
       "DESIGN.md §4 C19")
 
+check("C18",
+      "TLC (MC_C18 over QLind) builds, with exact Gaussian-rational arithmetic, the GKSL superoperator of every catalogued (Hermitian H, dissipator matrix K, jump-operator set) combination for one qubit and checks on the specification: action on every catalogue state equals -i[H,rho] + sum c rho c^dagger - 1/2{c^dagger c, rho}; trace annihilation; H / J / K parts sum to the generator; extraction (HFromL, KFromL, J from K) inverts construction; physical verdict iff first row zero and K positive semidefinite (exact principal-minor test). Binding: every emitted generator is replayed into generate_effective_lindbladian_from_h/_hk/_hjk/_k/_jump_operators, calc_h_mat / calc_j_mat / calc_k_mat, calc_h/j/k/d_part in both basis modes, is_tp / is_cp / is_physical and constructor verdicts, calc_proj_eq_constraint (first row only), calc_proj_ineq_constraint (clipped dissipator spectrum, fixed point on physical generators, degenerate spectra in generic eigenframes), to_gate (physicality, exp(0), semigroup law over 4 orders of magnitude of t); qutrit and two-qubit generators through the numpy transcription of QLind!Gksl that is first validated against TLC's exact generators.",
+      "Trusted: QLind definitions; the matrix exponential itself is not computed in the specification (relational checks only); one-qubit exact catalogue, larger systems seeded.",
+      "TLA+ spec (QLind exact GKSL generators) model-checked with TLC; replay of every TLC-emitted generator into the EffectiveLindbladian implementation",
+      "DESIGN.md §4 C18")
+
 check("C07",
       "TLC (MC_C07 over QIndex) enumerates, for 2-3 subsystems with dimensions in {2,3} (four qubits in the quick tier, four mixed subsystems in thorough), EVERY order of the arguments and EVERY grouping of the pairwise products and checks that folding the tree with the pairwise merge of one-hot objects lands at the canonical Kronecker index (ascending names, row-major radices d^2), that this index map is a bijection and equals the mixed-radix serial index. Binding: for every emitted configuration real factor objects on single named subsystems carry seeded generic entries, the tree is evaluated through pairwise tensor_product calls (and the n-ary call), and every entry of the result must be the product the canonical layout names - states, POVMs (outcome layout by ascending name), gates, measurement processes and mixed gate/measurement-process products (outcome layout as the reported shape says), state ensembles, matrix bases; product statistics (qubit x qubit, qubit x qutrit in both name orders) and the qutrit -> two-qubit embedding (physicality and all statistics) on the library's physical catalogue.",
       "Trusted: QIndex!KronIndex as the canonical layout; HS-matrix kinds restricted to total dimension^2 <= 64 (the library builds dense vec-permutation matrices).",
